@@ -127,16 +127,21 @@ def gen_topology(rng, family=None, c03=True, nframes=None):
     # required outputs = every consumer (C03 hypothesis)
     for n in nodes:
         n['required'] = [m['name'] for m in nodes if any(s.split(';')[0].rstrip('?') == 'ipc://' + n['name'] and not s.split(';')[0].endswith('?') for s in m['sources'])]
+    # a documented deployment option: metrics on a DEDICATED output (a second publisher inside the MQ, nobody listening here), with
+    # OUTPUTS_METRICS_PUSH on (publish regardless of listeners) or off (only when a listener asked); the data path must not notice
+    for n in nodes:
+        if n['out'] and rng.random() < 0.2: n['metrics'] = True
     return {'family': family, 'nframes': nframes, 'nodes': nodes, 'max_delay_ms': rng.choice([0, 5, 20, 60, 90]),
-            'sub_connect_ms': rng.choice([0, 0, 30, 90, 400])}     # slow joiner: the publish path of a connection comes up later than its request path
+            'sub_connect_ms': rng.choice([0, 0, 30, 90, 400]), 'metrics_push': rng.random() < 0.5}     # slow joiner: the publish path of a connection comes up later than its request path
 
 
 def build(net, topo, listeners=()):
     objs = {}
+    net.M.OUTPUTS_METRICS_PUSH = bool(topo.get('metrics_push', True))      # module constant read from the environment at import, used at call time
     for n in topo['nodes']:
         nd = mqnet.Node(net, n['name'], n['sources'] or None, [f"ipc://{n['name']}"] if n['out'] else None, mk_behaviour(n['beh']),
                         required=n.get('required') or None, work_ms=n['work'], srcs_balance=n.get('srcs_balance', False), outs_balance=n.get('outs_balance', False),
-                        nframes=(topo['nframes'] if not n['sources'] else None))
+                        nframes=(topo['nframes'] if not n['sources'] else None), metrics=(f"ipc://{n['name']}.metrics" if n.get('metrics') else None))
         nd.evals = []
         nd.sends = []
         objs[n['name']] = nd
